@@ -2,6 +2,7 @@ package modbus
 
 import (
 	"context"
+	"encoding/binary"
 	"errors"
 	"github.com/aldas/go-modbus-client/packet"
 	"io"
@@ -132,9 +133,21 @@ func NewRTUClient() *Client {
 // NewRTUClientWithConfig creates new instance of Modbus Client for Modbus RTU protocol with given configuration options
 func NewRTUClientWithConfig(conf ClientConfig) *Client {
 	client := defaultClient(conf)
-	client.asProtocolErrorFunc = packet.AsRTUErrorPacket
+	client.asProtocolErrorFunc = asRTUErrorPacketWithCRC
 	client.parseResponseFunc = packet.ParseRTUResponseWithCRC
 	return client
+}
+
+// asRTUErrorPacketWithCRC converts raw packet bytes to Modbus RTU error response if possible. Bytes that do not have
+// valid CRC are not considered to be error response as we can not trust anything in that packet.
+func asRTUErrorPacketWithCRC(data []byte) error {
+	if len(data) != 5 {
+		return nil
+	}
+	if binary.LittleEndian.Uint16(data[3:5]) != packet.CRC16(data[0:3]) {
+		return nil
+	}
+	return packet.AsRTUErrorPacket(data)
 }
 
 // NewClient creates new instance of Modbus Client with given configuration options
